@@ -6,6 +6,7 @@ import (
 	"go/constant"
 	"go/token"
 	"go/types"
+	"golang.org/x/tools/go/packages"
 	"math/big"
 	"os"
 	"reflect"
@@ -9127,7 +9128,7 @@ func ruleSearchLoopsIterate(c *core.Ctx) {
 // expression text. The tag switch of UnmarshalExpression therefore parses all four scalar tags the same way.
 func ruleExpressionScalarTags(c *core.Ctx) {
 	const rule = "Q8"
-	c.Rule(rule, "dsl.UnmarshalExpression: the switch on the node tag has the cases !!str, !!int, !!float and !!bool, each handing value.Value to ParseExpression", 4)
+	c.Rule(rule, "dsl.UnmarshalExpression: the dispatch on the node tag (switch, if-chain, predicate or table) sends !!str, !!int, !!float and !!bool alike to ParseExpression", 4)
 	p := c.Pkg("pkg/dsl")
 	_, d, _ := c.Func("pkg/dsl", "UnmarshalExpression")
 	if p == nil || d == nil {
@@ -9136,32 +9137,20 @@ func ruleExpressionScalarTags(c *core.Ctx) {
 	}
 	info := p.TypesInfo
 	parses := map[string]bool{}
-	ast.Inspect(d.Body, func(nn ast.Node) bool {
-		sw, ok := nn.(*ast.SwitchStmt)
-		if !ok || sw.Tag == nil || !strings.HasSuffix(types.ExprString(sw.Tag), ".Tag") {
-			return true
-		}
-		for _, cl := range sw.Body.List {
-			cc := cl.(*ast.CaseClause)
-			callsParse := false
-			for _, s := range cc.Body {
-				ast.Inspect(s, func(m ast.Node) bool {
+	for tag, actions := range tagActions(c, p, d) {
+		for _, action := range actions {
+			for _, st := range action {
+				ast.Inspect(st, func(m ast.Node) bool {
 					if ce, ok := m.(*ast.CallExpr); ok {
 						if f := core.Callee(info, ce); f != nil && f.Name() == "ParseExpression" {
-							callsParse = true
+							parses[tag] = true
 						}
 					}
 					return true
 				})
 			}
-			for _, e := range cc.List {
-				if tv, ok := info.Types[e]; ok && tv.Value != nil && tv.Value.Kind() == constant.String && callsParse {
-					parses[constant.StringVal(tv.Value)] = true
-				}
-			}
 		}
-		return true
-	})
+	}
 	for _, tag := range []string{"!!str", "!!int", "!!float", "!!bool"} {
 		c.Check(parses[tag], rule, "UnmarshalExpression/"+tag, d.Pos(), "parsed as an expression",
 			"a plain scalar that YAML resolves to "+tag+" is not parsed as an expression: `x: 2.5` is rejected while the quoted spelling of the same expression is accepted")
@@ -10535,4 +10524,266 @@ func ruleUnionDtypesBeforeTheirUsers(c *core.Ctx) {
 	if n == 0 {
 		c.Undecided(rule, "anchor/loop over TypeDefinitions", 0, "no loop over the type definitions that writes both the own entry and the union entries was found in internal/python/types")
 	}
+}
+
+// tagActions reads a dispatch on a YAML tag in any of the shapes the front end could be written in and returns, for every
+// tag constant, the statement lists that run when the tag matches:
+//
+//	switch node.Tag { case "!a", "!b": ACTION }            switch form
+//	if node.Tag == "!a" || tag == "!b" { ACTION } else if … if form (a leaving `if tag != "!a" { return }` makes the rest the action)
+//	if isInline(node.Tag) { ACTION }                       predicate of the package: the tags for which it can return true
+//	if f := lookup(node.Tag); f != nil { ACTION }          lookup of the package: the tags for which it returns a non-nil value
+//
+// A predicate / lookup is read the same way (its parameter is the tag), including a search of a package-level table of
+// string constants (`for i := range table { if table[i] == tag { return true } }`).
+func tagActions(c *core.Ctx, p *packages.Package, d *ast.FuncDecl) map[string][][]ast.Stmt {
+	info := p.TypesInfo
+	out := map[string][][]ast.Stmt{}
+	add := func(tags []string, action []ast.Stmt) {
+		for _, t := range tags {
+			out[t] = append(out[t], action)
+		}
+	}
+	strConst := func(e ast.Expr) (string, bool) {
+		if tv, ok := info.Types[e]; ok && tv.Value != nil && tv.Value.Kind() == constant.String {
+			return constant.StringVal(tv.Value), true
+		}
+		return "", false
+	}
+	var positive func(fd *ast.FuncDecl, param types.Object, depth int) []string
+	// isTag: e denotes the tag inside body (with tagParam standing for it in helpers)
+	isTagIn := func(body *ast.BlockStmt, tagParam types.Object) func(e ast.Expr) bool {
+		var isTag func(e ast.Expr) bool
+		isTag = func(e ast.Expr) bool {
+			e = ast.Unparen(e)
+			if se, ok := e.(*ast.SelectorExpr); ok && se.Sel.Name == "Tag" {
+				return true
+			}
+			if id, ok := e.(*ast.Ident); ok {
+				o := info.ObjectOf(id)
+				if o == nil {
+					return false
+				}
+				if tagParam != nil && o == tagParam {
+					return true
+				}
+				if r := singleDefRHS(info, body, id); r != ast.Expr(id) {
+					return isTag(r)
+				}
+			}
+			return false
+		}
+		return isTag
+	}
+	// tagsOfCond: the tags for which cond is true (nil, false when cond is not a test of the tag)
+	var tagsOfCond func(cond ast.Expr, isTag func(ast.Expr) bool, depth int) ([]string, bool)
+	tagsOfCond = func(cond ast.Expr, isTag func(ast.Expr) bool, depth int) ([]string, bool) {
+		cond = ast.Unparen(cond)
+		switch x := cond.(type) {
+		case *ast.BinaryExpr:
+			if x.Op == token.LOR {
+				a, ok1 := tagsOfCond(x.X, isTag, depth)
+				b, ok2 := tagsOfCond(x.Y, isTag, depth)
+				if ok1 && ok2 {
+					return append(a, b...), true
+				}
+				return nil, false
+			}
+			if x.Op == token.EQL {
+				for _, pr := range [][2]ast.Expr{{x.X, x.Y}, {x.Y, x.X}} {
+					if isTag(pr[0]) {
+						if s, ok := strConst(pr[1]); ok {
+							return []string{s}, true
+						}
+					}
+				}
+			}
+		case *ast.CallExpr:
+			// predicate of the package applied to the tag
+			if f := core.Callee(info, x); f != nil && f.Pkg() == p.Types && depth < 3 {
+				if fd := c.Decl(f.Origin()); fd != nil && fd.Body != nil {
+					ps := paramObjs(info, fd)
+					for ai, a := range x.Args {
+						if isTag(a) && ai < len(ps) && ps[ai] != nil {
+							return positive(fd, ps[ai], depth+1), true
+						}
+					}
+				}
+			}
+		}
+		return nil, false
+	}
+	// positive: the tags for which the helper returns true / a non-nil value
+	positive = func(fd *ast.FuncDecl, param types.Object, depth int) []string {
+		isTag := isTagIn(fd.Body, param)
+		var res []string
+		returnsPositive := func(list []ast.Stmt) bool {
+			hit := false
+			for _, s := range list {
+				ast.Inspect(s, func(m ast.Node) bool {
+					if r, ok := m.(*ast.ReturnStmt); ok && len(r.Results) >= 1 {
+						tv, known := info.Types[r.Results[0]]
+						if known && tv.IsNil() {
+							return true
+						}
+						if known && tv.Value != nil && tv.Value.Kind() == constant.Bool && !constant.BoolVal(tv.Value) {
+							return true
+						}
+						hit = true
+					}
+					return true
+				})
+			}
+			return hit
+		}
+		var walk func(list []ast.Stmt)
+		walk = func(list []ast.Stmt) {
+			for _, s := range list {
+				switch x := s.(type) {
+				case *ast.SwitchStmt:
+					if x.Tag != nil && isTag(x.Tag) {
+						for _, cl := range x.Body.List {
+							cc := cl.(*ast.CaseClause)
+							if returnsPositive(cc.Body) {
+								for _, e := range cc.List {
+									if t, ok := strConst(e); ok {
+										res = append(res, t)
+									}
+								}
+							}
+						}
+					}
+				case *ast.IfStmt:
+					if tags, ok := tagsOfCond(x.Cond, isTag, depth); ok && returnsPositive(x.Body.List) {
+						res = append(res, tags...)
+					}
+					// table search: `if table[i] == tag { return true }` inside a loop over a package-level table
+					if be, ok := ast.Unparen(x.Cond).(*ast.BinaryExpr); ok && be.Op == token.EQL && returnsPositive(x.Body.List) {
+						for _, pr := range [][2]ast.Expr{{be.X, be.Y}, {be.Y, be.X}} {
+							if !isTag(pr[0]) {
+								continue
+							}
+							var tbl types.Object
+							switch y := ast.Unparen(pr[1]).(type) {
+							case *ast.IndexExpr:
+								tbl = identObj(info, y.X)
+							case *ast.Ident:
+								// range value: find the ranged expression
+								ast.Inspect(fd.Body, func(m ast.Node) bool {
+									if rs, ok := m.(*ast.RangeStmt); ok && identObj(info, rs.Value) == info.ObjectOf(y) {
+										tbl = identObj(info, rs.X)
+									}
+									return true
+								})
+							}
+							if v, ok := tbl.(*types.Var); ok && v.Parent() == p.Types.Scope() {
+								for _, f := range p.Syntax {
+									ast.Inspect(f, func(m ast.Node) bool {
+										if vs, ok := m.(*ast.ValueSpec); ok {
+											for i, nm := range vs.Names {
+												if info.Defs[nm] == types.Object(v) && i < len(vs.Values) {
+													ast.Inspect(vs.Values[i], func(k ast.Node) bool {
+														if e, ok := k.(ast.Expr); ok {
+															if t, ok := strConst(e); ok {
+																if _, isLit := k.(*ast.BasicLit); isLit {
+																	res = append(res, t)
+																}
+															}
+														}
+														return true
+													})
+												}
+											}
+										}
+										return true
+									})
+								}
+							}
+						}
+					}
+					walk(x.Body.List)
+					if eb, ok := x.Else.(*ast.BlockStmt); ok {
+						walk(eb.List)
+					}
+				case *ast.ForStmt:
+					walk(x.Body.List)
+				case *ast.RangeStmt:
+					walk(x.Body.List)
+				case *ast.BlockStmt:
+					walk(x.List)
+				}
+			}
+		}
+		walk(fd.Body.List)
+		return res
+	}
+	isTag := isTagIn(d.Body, nil)
+	var walk func(list []ast.Stmt)
+	var visitIf func(is *ast.IfStmt, rest []ast.Stmt)
+	visitIf = func(is *ast.IfStmt, rest []ast.Stmt) {
+		handled := false
+		// `if f := lookup(tag); f != nil { ACTION }`
+		if as, ok := is.Init.(*ast.AssignStmt); ok && len(as.Lhs) == 1 && len(as.Rhs) == 1 {
+			if ce, ok := ast.Unparen(as.Rhs[0]).(*ast.CallExpr); ok {
+				if be, ok := ast.Unparen(is.Cond).(*ast.BinaryExpr); ok && be.Op == token.NEQ && (isNilIdent(be.Y) && identObj(info, be.X) == identObj(info, as.Lhs[0]) || isNilIdent(be.X) && identObj(info, be.Y) == identObj(info, as.Lhs[0])) {
+					if tags, ok := tagsOfCond(ce, isTag, 0); ok {
+						add(tags, is.Body.List)
+						handled = true
+					}
+				}
+			}
+		}
+		if !handled {
+			if tags, ok := tagsOfCond(is.Cond, isTag, 0); ok {
+				add(tags, is.Body.List)
+				handled = true
+			} else if be, ok := ast.Unparen(is.Cond).(*ast.BinaryExpr); ok && be.Op == token.NEQ && is.Else == nil && stmtLeaves(is.Body) {
+				// `if tag != "!a" { return … }`: what follows is the action for "!a"
+				for _, pr := range [][2]ast.Expr{{be.X, be.Y}, {be.Y, be.X}} {
+					if isTag(pr[0]) {
+						if t, ok := strConst(pr[1]); ok {
+							add([]string{t}, rest)
+							handled = true
+						}
+					}
+				}
+			}
+		}
+		walk(is.Body.List)
+		switch e := is.Else.(type) {
+		case *ast.BlockStmt:
+			walk(e.List)
+		case *ast.IfStmt:
+			visitIf(e, nil)
+		}
+	}
+	walk = func(list []ast.Stmt) {
+		for i, s := range list {
+			switch x := s.(type) {
+			case *ast.SwitchStmt:
+				if x.Tag != nil && isTag(x.Tag) {
+					for _, cl := range x.Body.List {
+						cc := cl.(*ast.CaseClause)
+						var tags []string
+						for _, e := range cc.List {
+							if t, ok := strConst(e); ok {
+								tags = append(tags, t)
+							}
+						}
+						add(tags, cc.Body)
+					}
+					continue
+				}
+				for _, cl := range x.Body.List {
+					walk(cl.(*ast.CaseClause).Body)
+				}
+			case *ast.IfStmt:
+				visitIf(x, list[i+1:])
+			case *ast.BlockStmt:
+				walk(x.List)
+			}
+		}
+	}
+	walk(d.Body.List)
+	return out
 }
